@@ -785,9 +785,11 @@ func MakeConnWithCompleteHandshake(tcpConn net.Conn, version uint16, cipherSuite
 		var clientCipher, serverCipher interface{}
 		var clientHash, serverHash hash.Hash
 		if cs.cipher != nil {
-			clientCipher = cs.cipher(clientKey, clientIV, true /* for reading */)
+			// The side that writes with a key needs the encrypting direction of the
+			// block mode, the side that reads with it the decrypting one (cf. establishKeys).
+			clientCipher = cs.cipher(clientKey, clientIV, !isClient /* the server reads with the client key */)
 			clientHash = cs.mac(clientMAC)
-			serverCipher = cs.cipher(serverKey, serverIV, false /* not for reading */)
+			serverCipher = cs.cipher(serverKey, serverIV, isClient /* the client reads with the server key */)
 			serverHash = cs.mac(serverMAC)
 		} else {
 			clientCipher = cs.aead(clientKey, clientIV)
